@@ -34,7 +34,21 @@ def materialise(tree, root):
         os.makedirs(d, exist_ok=True)
         for f in node["files"]:
             with open(os.path.join(d, f), "w") as fh:
-                fh.write(CMAKE_BODY.format(name=f, ident=ident(f)) if f.lower().endswith("cmake") else "text\n")
+                # the function name identifies the file (by its relative path) in whatever page it ends up in
+                fh.write(CMAKE_BODY.format(name=f, ident=ident("/".join(node["path"] + [f]))) if f.lower().endswith("cmake") else "text\n")
+
+
+def documented_from_pages(tree, texts):
+    """which input files were documented, read off the generated text (fallback when the harness's wrapper around
+    cminx.document_single_file sees no call, e.g. after the function was renamed or inlined)"""
+    out = []
+    blob = "\n".join(texts)
+    for node in tree:
+        for f in node["files"]:
+            rel = "/".join(node["path"] + [f])
+            if "f_%s(" % ident(rel) in blob:
+                out.append(rel)
+    return out
 
 
 def snapshot(root):
@@ -133,6 +147,7 @@ def run_case(beh, sandbox, prefix_arg=None, extra_rst=None, capture_effects=True
         os.scandir = real_scandir
     after = snapshot(sandbox)
     obs["stdout"] = stdout.getvalue()
+    obs["docs_wrapper_seen"] = bool(obs["docs"])
     created = {p: after[p] for p in after if p not in before}
     changed = [p for p in before if p in after and before[p] != after[p]]
     deleted = [p for p in before if p not in after]
@@ -160,6 +175,8 @@ def run_case(beh, sandbox, prefix_arg=None, extra_rst=None, capture_effects=True
         obs["out_files"] = []
         obs["indexes"] = {}
         obs["pages"] = {}
+    if not obs["docs"]:
+        obs["docs"] = documented_from_pages(beh["tree"], list(obs["pages"].values()) + [obs["stdout"]])
     return obs
 
 
@@ -471,14 +488,16 @@ def c18_case(beh, sandbox, n):
         only_cfg = bool(bad) and not pre_touched and set(bad) <= {"home/.config/", "home/.config/cminx/"}
         return [], {"outside_output_dir_or_deleted": bad, "preexisting_changed": pre_touched, "only_user_config_dir": only_cfg}, \
             "the run created/changed/deleted something outside the output directory or touched unrelated files in it"
-    # pages written by run A, keyed by source file
+    # pages written by run A (every .rst under the output directory that is not an index)
     pages = {}
-    for d in oa["docs"]:
-        stem = ".".join(os.path.basename(d).split(".")[:-1])
-        pp = os.path.join(out, os.path.dirname(d), stem + ".rst")
-        if not os.path.exists(pp):
-            return "page for " + d, "missing", "a documented file has no page under the output directory"
-        pages[d] = open(pp, encoding="utf-8").read()
+    for r, ds, fs in os.walk(out):
+        for f in fs:
+            if f.endswith(".rst") and f != "index.rst" and not f.endswith("keep.rst") and f != "unrelated.rst":
+                rel = os.path.relpath(os.path.join(r, f), out)
+                pages[rel] = open(os.path.join(r, f), encoding="utf-8").read()
+    want_docs = documented_from_pages(beh["tree"], list(pages.values()))
+    if oa["docs"] and sorted(oa["docs"]) != sorted(want_docs):
+        return sorted(oa["docs"]), sorted(want_docs), "files documented and pages found under the output directory differ"
     work, inp, out, spelled, sfile = build(rb)
     before = snapshot(rb)
     ob = {"docs": []}
@@ -490,20 +509,29 @@ def c18_case(beh, sandbox, n):
     if after != before:
         diff = sorted(set(after) ^ set(before)) + [p for p in before if p in after and before[p] != after[p]]
         return [], diff, "a run without output directory changed the file system"
-    if sorted(ob["docs"]) != sorted(oa["docs"]):
-        return sorted(oa["docs"]), sorted(ob["docs"]), "the files documented with and without -o differ"
-    exp = "".join(pages[d] + "\n" for d in ob["docs"])
-    if stdout != exp:
+    # stdout must be a concatenation of exactly the written pages, each followed by one empty line
+    rest = stdout
+    order = []
+    left = dict(pages)
+    while rest:
+        hit = [k for k, v in left.items() if rest.startswith(v + "\n")]
+        if not hit:
+            break
+        k = max(hit, key=lambda x: len(left[x]))
+        order.append(k)
+        rest = rest[len(left.pop(k)) + 1:]
+    if rest or left:
+        exp = "".join(pages[k] + "\n" for k in sorted(pages))
         return exp, stdout, "standard output is not exactly the pages the -o run wrote, each followed by one empty line"
     # per directory: contiguous and in sorted order
     seen = []
-    for d in ob["docs"]:
+    for d in order:
         dd = os.path.dirname(d)
         if seen and seen[-1][0] == dd:
             if seen[-1][1] > os.path.basename(d):
-                return "sorted", ob["docs"], "pages of a directory are not printed in sorted name order"
+                return "sorted", order, "pages of a directory are not printed in sorted name order"
         elif dd in [x[0] for x in seen]:
-            return "contiguous", ob["docs"], "pages of a directory are not printed together"
+            return "contiguous", order, "pages of a directory are not printed together"
         seen.append((dd, os.path.basename(d)))
     return None
 
